@@ -128,6 +128,16 @@ func solve(query string, tmpdir, name string, timeoutS int, all bool) solveResul
 	}
 	if firstDef != nil {
 		res.status, res.solver, res.ms, res.out = firstDef.st, firstDef.name, firstDef.ms, firstDef.out
+	} else {
+		allErr := len(res.all) > 0
+		for _, st := range res.all {
+			if st != "error" {
+				allErr = false
+			}
+		}
+		if allErr {
+			res.status = "error" // ill-formed query: a translator fault, never a verdict
+		}
 	}
 	return res
 }
